@@ -16,7 +16,27 @@ def model_runs(ctx, prop):
         acts = ["AppPoll", "Sel", "Wr", "Ret"] if c != "live" else []
         runs.append((dict(module="io/PollLoop", cfg=f"PollLoop.{c}.cfg", workers=3 if c != "mixedT" else 10, coverage=(c != "live"),
                           check=False, timeout=3000, heap="8g"), f"PollLoop.{c}.cfg", acts))
+    if prop == "C17":
+        # escape-sequence size mode: the committed repair ("front") holds, liveness included
+        if not q:
+            # 4 window changes, 5 frame writes, 4 chunks: 3.6 M distinct states, about 5 minutes
+            runs.append((dict(module="io/SizeMode", cfg="SizeMode.thorough.cfg", workers=8, coverage=False, check=False, timeout=2400, heap="8g"),
+                         "SizeMode.thorough.cfg", []))
+        runs.append((dict(module="io/SizeMode", cfg="SizeMode.cfg", workers=4, coverage=True, check=False, timeout=1500, heap="4g"),
+                     "SizeMode.cfg", ["Sig", "AppDrop", "Rd", "Deliver", "Term", "Resize"]))
     return runs
+
+
+def size_mode_controls(ctx):
+    """The invariant of SizeMode must be able to fail: the tree as found ("back") and the rejected first repair
+    ("reissue") both lose a window change."""
+    cfgs = ["SizeMode.bug.cfg", "SizeMode.reissue.cfg"]
+    res = lib.tlc_parallel([dict(module="io/SizeMode", cfg=c, workers=2, check=False, timeout=900, heap="3g") for c in cfgs])
+    for c, r in zip(cfgs, res):
+        if r.invariant != "NoLostResize":
+            lib.log(r.out[-2000:])
+            raise lib.ToolError(f"vacuous model: {c} was expected to violate NoLostResize, got {r.invariant!r}")
+        ctx.mc.append(dict(lib.mc_record(c, r), expected="violation of NoLostResize (control)"))
 
 
 def sessions(ctx, prop):
@@ -24,7 +44,7 @@ def sessions(ctx, prop):
     by the rule they break (queue / byte-stream rules -> C16, everything else -> C17)."""
     q = ctx.quick
     n = 64 if q else 1200
-    scen = ["normal", "big", "quit", "quit2", "pending", "burst", "escsize", "unwind"]
+    scen = ["normal", "big", "quit", "quit2", "pending", "burst", "escsize", "unwind", "hammer"]
     recs = [{"id": i, "seed": ctx.seed * 100000 + i, "scenario": scen[i % len(scen)]} for i in range(n)]
     nproc = 8
     jobs = []
